@@ -1,0 +1,107 @@
+// Copyright 2024 The Go Authors. All rights reserved.
+// Use of this source code is governed by a BSD-style
+// license that can be found in the LICENSE file.
+
+//go:build verif
+
+// Contracts (//@ lines) for starting the telemetry sidecar (start.go);
+// compiled only with -tags verif.
+
+package telemetry
+
+// C16 ghosts ($mode, $fsops are declared by internal/telemetry):
+//
+//	$childvar  the value of GO_TELEMETRY_CHILD read by Start
+//	$spawned   processes started (exec.Cmd.Start calls)
+//	$token     acquireUploadToken returned true in this run
+//	$created   the token file was created by this process (O_CREATE|O_EXCL succeeded)
+//	$age       the age of the token file computed by acquireUploadToken
+//	$marked    the child has rewritten GO_TELEMETRY_CHILD to "2"
+//	$nenv      the length of the environment copied for the child
+
+//@ ghost childvar string
+//@ ghost spawned wide
+//@ ghost token bool
+//@ ghost created bool
+//@ ghost age int
+//@ ghost marked bool
+//@ ghost nenv int
+
+// A process is started only by startChild, startChild is called only by
+// parent, and parent only by Start (which checks that the marker is empty).
+//@ callers startChild: parent
+//@ callers parent: Start
+//@ callers child: MaybeChild, Start
+//@ callers acquireUploadToken: parent
+
+// Start: the parent path only with an empty marker, the child path only with
+// "1"; with "2" (a descendant of a sidecar) nothing is started or written.
+//@ contract Start
+//@   requires $rd == 0 && $lk == 0
+//@   at call Getenv#1: assert arg0 == "GO_TELEMETRY_CHILD"
+//@   at call Getenv#1: after ghost $childvar = result
+//@   at call parent#1: assert $childvar == ""
+//@   at call child#1: assert $childvar == "1"
+//@   ensures $childvar != "" ==> $spawned == old($spawned) && $fsops == old($fsops)
+//@   ensures $spawned <= old($spawned)+1
+//@   modifies heap
+
+//@ contract MaybeChild
+//@   requires $rd == 0 && $lk == 0
+//@   at call Getenv#1: assert arg0 == "GO_TELEMETRY_CHILD"
+//@   at call Getenv#1: after ghost $childvar = result
+//@   at call child#1: assert $childvar == "1"
+//@   ensures $spawned == old($spawned) && $fsops == old($fsops)
+//@   modifies heap
+
+// parent: with mode off nothing is started and nothing is written; otherwise
+// a child is started at most once, and only if crash reporting was requested
+// or uploading was requested and the token was acquired.
+//@ contract parent
+//@   requires $rd == 0 && $lk == 0
+//@   at call acquireUploadToken#1: assert $mode != "off" && config.Upload
+//@   at call acquireUploadToken#1: after ghost $token = result
+//@   at call startChild#1: assert $mode != "off" && (arg0 || arg1) && arg0 == config.ReportCrashes && (arg1 ==> config.Upload && $token)
+//@   at call Open#1: assert $mode != "off"
+//@   ensures $mode == "off" ==> $fsops == old($fsops) && $spawned == old($spawned)
+//@   ensures $spawned != old($spawned) ==> config.ReportCrashes || (config.Upload && $token)
+//@   ensures $spawned <= old($spawned)+1
+//@   modifies heap
+
+// startChild: the new process carries GO_TELEMETRY_CHILD=1 as the entry after
+// the copied environment, and GO_TELEMETRY_CHILD_UPLOAD=1 after it exactly
+// when uploading was granted; at most one process is started.
+//@ contract startChild
+//@   requires result != nil
+//@   at call Environ#1: after ghost $nenv = len(result)
+//@   at call Start#1: assert len(cmd.Env) == ite(upload, $nenv+2, $nenv+1) && cmd.Env[$nenv] == "GO_TELEMETRY_CHILD=1" && (upload ==> cmd.Env[$nenv+1] == "GO_TELEMETRY_CHILD_UPLOAD=1")
+//@   ensures $spawned <= old($spawned)+1
+//@   modifies heap
+
+// child: the marker is rewritten to "2" before the counter file is opened and
+// before the crash monitor or the uploader (which run go commands) start;
+// the child never returns and starts no process itself.
+//@ contract child
+//@   requires $rd == 0 && $lk == 0
+//@   at call Setenv#1: assert arg0 == "GO_TELEMETRY_CHILD" && arg1 == "2"
+//@   at call Setenv#1: ghost $marked = true
+//@   at call NewDir#1: ghost $marked = false
+//@   at call SetPrefix#1: ghost $marked = false
+//@   at call Open#1: assert $marked
+//@   at call Go#1: assert $marked
+//@   at call Go#2: assert $marked
+//@   at call Exit#1: assert $spawned == old($spawned)
+//@   ensures false
+//@   modifies heap
+
+// acquireUploadToken: the token is granted only to the process whose
+// exclusive create of the token file succeeded; an existing token is removed
+// only after its age was found to be at least 24 hours.
+//@ contract acquireUploadToken
+//@   at call Since#1: after ghost $age = result
+//@   at call Remove#1: assert $age >= 24*3600*1000000000 && arg0 == filepath.Join(telemetry.Default.LocalDir(), "upload.token")
+//@   at call OpenFile#1: assert arg0 == filepath.Join(telemetry.Default.LocalDir(), "upload.token") && arg1 == os.O_CREATE|os.O_EXCL
+//@   at call OpenFile#1: after ghost $created = result1 == nil
+//@   ensures result ==> $created
+//@   ensures telemetry.Default.LocalDir() == "" ==> !result && $fsops == old($fsops)
+//@   modifies $fsops, $created, $age
